@@ -28,7 +28,7 @@ def obligations(tier):
 META = dict(
     level="model_checking",
     bounds={"quick": "(a) 27 encoders x full value domain x n in 0..10; (b) every tree of the C03 space (accepted skeletons <= 3 heads + 65 construction programs) x every n in 0..size+2 (symbolic); pointer-checked variant on 12 trees with >= 4 nodes",
-            "thorough": "<= 4 heads; pointer-checked variant on 60 trees"},
+            "thorough": "<= 4 heads (all of S(3), every accepted 4-head sequence, every 4th rejected and every 16th still-open 4-head sequence); pointer-checked variant on 60 trees"},
     assumptions=["recording allocator grants the request of cbor_serialize_alloc (refusal is C06)", "partial writes inside the first n bytes are allowed for composites on failure, as the statement says",
                  "pointer checks are on for (a) and for the *_ptrcheck obligations; the other tree obligations are functional (bounds of the exact-size block are checked there by snapshot comparison of [size,n))"],
     outside=["items whose encoding does not fit in memory (size 0 case is C20)"],
